@@ -265,10 +265,15 @@ structure Guarded where
   c : Circuit
 deriving Repr, Inhabited
 
-/-- `InUseGuard guard(isInUse_); <body>(*this, …);` — the three wrappers of src/coloquinte.cpp: the
-constructor sets the flag, the destructor clears it when the scope is left, by return or by exception -/
-def withInUseGuard (body : Circuit → Outcome × Circuit) (s : Guarded) : Outcome × Guarded :=
-  ((body ({ s with inUse := true } : Guarded).c).1, { inUse := false, c := (body ({ s with inUse := true } : Guarded).c).2 })
+/-- `InUseGuard guard(isInUse_); <body>(*this, …);` — the three wrappers of src/coloquinte.cpp.  The
+guard object lives for the whole function body; its destructor runs when the scope is left, by return or
+by exception.  Two shapes (the translator accepts exactly these, `Kind.scoped` / `Kind.scopedRestore`):
+`restores = false`: the constructor sets the flag, the destructor clears it;
+`restores = true`: the constructor saves the flag and sets it, the destructor puts the saved value back
+(a placement call made from a callback of another one does not release the circuit of the outer call). -/
+def withInUseGuard (restores : Bool) (body : Circuit → Outcome × Circuit) (s : Guarded) : Outcome × Guarded :=
+  ((body ({ s with inUse := true } : Guarded).c).1,
+   { inUse := if restores then s.inUse else false, c := (body ({ s with inUse := true } : Guarded).c).2 })
 
 /-! ### The frame relation -/
 
